@@ -353,6 +353,10 @@ package statefulset
 // stalledUpdate: calm, but some pod is outdated (outdIdx is its index: a witness function constrained only here).  The rolling
 // update must then take a step: a reconcile in such a state issues a delete (the no-stall half of convergence for updates).
 //@ spec func outdIdx(ps []*v1.Pod) int
+// stalledScaleOut: every snapshot pod is settled (but for its revision) and some desired ordinal holds no pod (vacOrd: witness).
+// A reconcile in such a state issues a create (the no-stall half of convergence for scale-out / replacement of lost pods).
+//@ spec func vacOrd(ps []*v1.Pod) int
+//@ spec func allSettled(s *apps.StatefulSet, ps []*v1.Pod) bool = forall k int :: {ps[k]} 0 <= k && k < len(ps) ==> settledButRev(s, ps[k])
 //@ spec func stalledUpdate(s *apps.StatefulSet, ps []*v1.Pod, upd string) bool = calmSnap(s, ps) && s.DeletionTimestamp == nil && 0 <= outdIdx(ps) && outdIdx(ps) < len(ps) && outdatedP(s, ps[outdIdx(ps)], upd)
 // occ(ps, o): index of the snapshot pod occupying ordinal o (a witness function: uninterpreted, constrained only inside finalSnap)
 //@ spec func occ(ps []*v1.Pod, o int) int
@@ -374,15 +378,17 @@ package statefulset
 //@   ghost var calm bool  -- nothing to create, delete or repair (C02)
 //@   ghost var fin bool   -- the snapshot is a fixed point (C02): calm and no pod outdated
 //@   ghost var stu bool   -- calm, but a pod is outdated: the rolling update must take a step (C02)
+//@   ghost var sto bool   -- every pod settled, but a desired ordinal is vacant: the reconcile must create a pod (C02)
 //@   at entry: ghost calm = calmSnap(set, pods)
+//@   at entry: ghost sto = allSettled(set, pods) && set.DeletionTimestamp == nil && 0 <= vacOrd(pods) && vacOrd(pods) <= MaxInt32 && desiredOf(set, vacOrd(pods)) && (forall k int :: {pods[k]} 0 <= k && k < len(pods) ==> ordOf(pods[k]) != vacOrd(pods))
 //@   at entry: ghost fin = calm && (forall k int :: {pods[k]} 0 <= k && k < len(pods) ==> !outdatedP(set, pods[k], updateRevision.Name))
 //@   at entry: ghost stu = calm && set.DeletionTimestamp == nil && 0 <= outdIdx(pods) && outdIdx(pods) < len(pods) && outdatedP(set, pods[outdIdx(pods)], updateRevision.Name)
-//@   at call identityMatches#1 before: assert [C02] finwitness: calm ==> 0 <= sidx[replicas[i]] && sidx[replicas[i]] < len(pods) && pods[sidx[replicas[i]]] == replicas[i]
-//@   at call identityMatches#1 before: assert [C02] finid: calm ==> idOK(set, replicas[i])
-//@   at call identityMatches#1 before: assert [C02] finvols: calm ==> volsDistinct(replicas[i])
+//@   at call identityMatches#1 before: assert [C02] finwitness: calm || sto ==> 0 <= sidx[replicas[i]] && sidx[replicas[i]] < len(pods) && pods[sidx[replicas[i]]] == replicas[i]
+//@   at call identityMatches#1 before: assert [C02] finid: calm || sto ==> idOK(set, replicas[i])
+//@   at call identityMatches#1 before: assert [C02] finvols: calm || sto ==> volsDistinct(replicas[i])
 //@   at call identityMatches#1 before: assert snapkept: forall k int :: {pods[k]} 0 <= k && k < len(pods) ==> pods[k].Spec.Volumes == old(pods[k].Spec.Volumes) && pods[k].Name == old(pods[k].Name)
 //@   at call identityMatches#1 before: assert setkept: set.Name == old(set.Name) && set.Spec.VolumeClaimTemplates == old(set.Spec.VolumeClaimTemplates)
-//@   at call identityMatches#1 before: assert [C02] finstorage: calm ==> ordOf(replicas[i]) >= 0 && podStorage(set, replicas[i], ordOf(replicas[i]))
+//@   at call identityMatches#1 before: assert [C02] finstorage: calm || sto ==> ordOf(replicas[i]) >= 0 && podStorage(set, replicas[i], ordOf(replicas[i]))
 //@   at call ApplyRevision#1 before: ghost gTmplLo = allocMark()
 //@   at call ApplyRevision#2 after: ghost gTmplHi = allocMark()
 //@   at call newVersionedStatefulSetPod#2 after: assert [C12] censusafternew: forall k int :: {pods[k]} {rdyI[k]} {curI[k]} {updI[k]} 0 <= k && k < len(pods) ==> (rdyI[k] <==> isRunningAndReadyS(pods[k])) && (curI[k] <==> (isCreatedS(pods[k]) && !isTerminatingS(pods[k]) && revOf(pods[k]) == gCurRev)) && (updI[k] <==> (isCreatedS(pods[k]) && !isTerminatingS(pods[k]) && revOf(pods[k]) == gUpdRev))
@@ -435,6 +441,7 @@ package statefulset
 //@   profile defaulted ensures [C11] deletingnotouch: set.DeletionTimestamp != nil ==> gPodTouch == old(gPodTouch) && gWrites == old(gWrites)
 //@   profile defaulted ensures [C02] quiet: fin ==> gNact == 0 && gPodTouch == old(gPodTouch) && gWrites == old(gWrites)
 //@   profile defaulted ensures [C02] nostallupdate: stu ==> gNact >= 1 || err != nil
+//@   profile defaulted ensures [C02] nostallscaleout: sto ==> gNact >= 1 || err != nil
 //@   profile defaulted ensures [C02] fixedstatus: fin && err == nil ==> statusp.Replicas == len(pods) && statusp.ReadyReplicas == len(pods)
 //@   ensures writesgrow: gWrites >= old(gWrites) && gPodTouch >= old(gPodTouch) && gCtlFails >= old(gCtlFails)
 //@   profile defaulted ensures [C12] bounds: err == nil ==> 0 <= statusp.ReadyReplicas && statusp.ReadyReplicas <= statusp.Replicas && 0 <= statusp.CurrentReplicas && statusp.CurrentReplicas <= statusp.Replicas && 0 <= statusp.UpdatedReplicas && statusp.UpdatedReplicas <= statusp.Replicas
@@ -483,6 +490,7 @@ package statefulset
 //@     invariant unhealthy >= 0 && (unhealthy > 0 ==> firstUnhealthyPod != nil)
 //@     invariant counted: forall j int :: {condemned[j]} 0 <= j && j < i && !isHealthyS(condemned[j]) ==> unhealthy > 0
 //@   loop 5 "range replicas"
+//@     invariant [C02] stoprogress: sto ==> gNact >= 1 || i <= vacOrd(pods)
 //@     invariant [C02] quietsofar: calm ==> gNact == 0 && gPodTouch == old(gPodTouch) && gWrites == old(gWrites)
 //@     invariant [C02] nonewq: calm ==> (forall o int :: {replicas[o]} 0 <= o && o < replicaCount && replicas[o] != nil ==> inSnap(replicas[o]))
 //@     invariant len(replicas) == replicaCount && !gDeleting && gUpdDeletes == 0
@@ -517,6 +525,7 @@ package statefulset
 //@     invariant [C12] newcreated: forall o int :: {replicas[o]} 0 <= o && o < i && replicas[o] != nil && !inSnap(replicas[o]) ==> gCreated[o]
 //@     invariant [C14] burstcreated: !gMonotonic ==> (forall o int :: {gCreated[o]} 0 <= o && o < i && vacant(o) ==> gCreated[o])
 //@   loop 6 "for target := len(condemned) - 1; target >= 0"
+//@     invariant [C02] stodone: sto ==> gNact >= 1
 //@     invariant [C02] quietsofar: calm ==> gNact == 0 && gPodTouch == old(gPodTouch) && gWrites == old(gWrites)
 //@     invariant 0 - 1 <= target && target < len(condemned) && !gDeleting && gUpdDeletes == 0
 //@     invariant [C09] writes: gWrites >= old(gWrites) && gPodTouch >= old(gPodTouch) && gCtlFails == old(gCtlFails)
@@ -546,6 +555,7 @@ package statefulset
 //@   ghost var old7Updated int
 //@   at loopstart 7: ghost old7Replicas = status.Replicas; ghost old7Ready = status.ReadyReplicas; ghost old7Current = status.CurrentReplicas; ghost old7Updated = status.UpdatedReplicas
 //@   loop 7 "for target := len(replicas) - 1; target >= updateMin"
+//@     invariant [C02] stodone: sto ==> gNact >= 1
 //@     invariant [C02] quietsofar: fin ==> gNact == 0 && gPodTouch == old(gPodTouch) && gWrites == old(gWrites)
 //@     invariant [C02] stallwitness: stu ==> gNact == 0 && ordOf(pods[outdIdx(pods)]) <= target
 //@     invariant [C02] nonewq: calm ==> (forall o int :: {replicas[o]} 0 <= o && o < replicaCount && replicas[o] != nil ==> inSnap(replicas[o]))
